@@ -197,4 +197,176 @@ Section Plan.
     - intros s a Hs. destruct (in_plan s Hs) as (j & e & lvl & _ & Es & He & Hl). subst s.
       rewrite req_set_sid, uuids_set_sid, in_req_step. split; intros [u [Hu Ha]]; exists u; (split; [apply in_uuids_step; exact Hu | exact Ha]).
   Qed.
+
+  (* ---------- levels: position of a level's step in the plan ---------- *)
+  Lemma lidx_nth_inv : forall (L : list (list nat)) a, In a (concat L) -> exists l, nth_error L (lidx L a) = Some l /\ In a l.
+  Proof.
+    intros L. induction L as [|l0 t IH]; intros a Ha; [destruct Ha|]. cbn [concat lidx] in *.
+    destruct (mem a l0) eqn:E.
+    - exists l0. split; [reflexivity | apply mem_In; exact E].
+    - apply mem_false in E. apply in_app_iff in Ha. destruct Ha as [Ha|Ha]; [contradiction|].
+      destruct (IH a Ha) as [l [Hn Hl]]. exists l. split; assumption.
+  Qed.
+
+  Lemma raw_block : forall e, In e PQ -> exists A B, raw_plan ord g = A ++ map (mk_step ord g cl) (glevels ord g (fst e)) ++ B.
+  Proof.
+    intros e He. rewrite raw_plan_eq. destruct (in_split e PQ He) as [P1 [P2 E]]. rewrite E.
+    rewrite flat_map_app. cbn [flat_map]. eexists. eexists. reflexivity.
+  Qed.
+
+  Lemma plan_nth_level : forall (e : nat * list nat) A B i lvl, raw_plan ord g = A ++ map (mk_step ord g cl) (glevels ord g (fst e)) ++ B ->
+    nth_error (glevels ord g (fst e)) i = Some lvl ->
+    nth_error (plan_of ord g) (List.length A + i) = Some (set_sid (List.length A + i) (mk_step ord g cl lvl)).
+  Proof.
+    intros e A B i lvl E Hn. unfold plan_of. rewrite number_nth, E. cbn [Nat.add].
+    rewrite nth_error_app2 by lia. replace (List.length A + i - List.length A) with i by lia.
+    rewrite nth_error_app1.
+    - rewrite nth_error_map, Hn. reflexivity.
+    - rewrite map_length. apply nth_error_Some. rewrite Hn. discriminate.
+  Qed.
+
+  Lemma same_group_levels : forall a f, In a (ids g) -> In f (ids g) -> grp_of g a = grp_of g f -> anc g a f ->
+    exists e, In e PQ /\ fst e = grp_of g f /\ In a (concat (glevels ord g (fst e))) /\ In f (concat (glevels ord g (fst e))) /\
+              lidx (glevels ord g (fst e)) a < lidx (glevels ord g (fst e)) f.
+  Proof.
+    intros a f Ha Hf Eg Hanc. destruct (pq_of_feature f Hf) as [e [He [Ek Hfe]]].
+    destruct (pq_entry e He) as (E & _). destruct (glevels_spec e He) as (_ & S2 & _ & S4).
+    assert (Hae : In a (snd e)).
+    { rewrite E. apply members_spec. split; [apply (queue_complete g Hok); exact Ha | rewrite Ek; exact Eg]. }
+    assert (Hfc : In f (concat (glevels ord g (fst e)))) by (apply (Permutation_in _ (Permutation_sym S2)); exact Hfe).
+    assert (Hac : In a (concat (glevels ord g (fst e)))) by (apply (Permutation_in _ (Permutation_sym S2)); exact Hae).
+    assert (Hin : In a (intra_of (fun u => aget0 u cl) (ord 1 (ord 0 (snd e))) f)).
+    { unfold intra_of. apply filter_In. split; [apply (closure_correct g Hok); exact Hanc|]. apply mem_In.
+      apply (Permutation_in _ (Permutation_sym (Hord 1 _))). apply (Permutation_in _ (Permutation_sym (Hord 0 _))). exact Hae. }
+    destruct (lv_ok_lidx _ _ _ S4 f a Hfc Hin) as [[]|[_ Hlt]].
+    exists e. repeat split; assumption.
+  Qed.
+
+  (* features of one group that depend on each other are computed by different steps, the ancestor's step comes earlier
+     in the plan and is required by the descendant's step; the fallback is never taken *)
+  Theorem levels_sound : forall a f, In a (ids g) -> In f (ids g) -> grp_of g a = grp_of g f -> anc g a f ->
+    exists i j sa sf, i < j /\ nth_error (plan_of ord g) i = Some sa /\ nth_error (plan_of ord g) j = Some sf /\
+                      In a (uuids sa) /\ In f (uuids sf) /\ In a (req sf) /\ ~ In f (uuids sa).
+  Proof.
+    intros a f Ha Hf Eg Hanc. destruct (same_group_levels a f Ha Hf Eg Hanc) as (e & He & _ & Hac & Hfc & Hlt).
+    destruct (raw_block e He) as [A [B E]].
+    destruct (lidx_nth_inv _ a Hac) as [la [Hna Hla]]. destruct (lidx_nth_inv _ f Hfc) as [lf [Hnf Hlf]].
+    exists (List.length A + lidx (glevels ord g (fst e)) a), (List.length A + lidx (glevels ord g (fst e)) f).
+    eexists. eexists. split; [lia|]. split; [exact (plan_nth_level e A B _ la E Hna)|]. split; [exact (plan_nth_level e A B _ lf E Hnf)|].
+    rewrite !uuids_set_sid, req_set_sid. split; [apply in_uuids_step; exact Hla|]. split; [apply in_uuids_step; exact Hlf|].
+    split; [apply in_req_step; exists f; split; assumption|].
+    intros Hfa. apply (proj1 (in_uuids_step la f)) in Hfa.
+    destruct (glevels_spec e He) as (_ & S2 & _). destruct (pq_entry e He) as (_ & _ & _ & Hnd).
+    assert (Hndc : NoDup (concat (glevels ord g (fst e)))) by (apply (Permutation_NoDup (Permutation_sym S2)); exact Hnd).
+    pose proof (lidx_nth _ _ _ f Hndc Hna Hfa) as E1. lia.
+  Qed.
+
+  Theorem fallback_unreachable : fallback_used ord g = false.
+  Proof.
+    unfold fallback_used. destruct (existsb _ PQ) eqn:E; [|reflexivity]. exfalso.
+    apply existsb_exists in E. destruct E as [e [He E]]. apply existsb_exists in E. destruct E as [lv [Hlv Hfb]].
+    destruct (pq_entry e He) as (_ & Hne & Hsub & _). rewrite (levels_of_group_strict (snd e) Hne Hsub) in Hlv.
+    destruct Hlv as [Hlv|[]]. subst lv. destruct (glevels_spec e He) as (S1 & _). rewrite S1 in Hfb. discriminate.
+  Qed.
+
+  (* ---------- add_tfs adds nothing; the validation passes ---------- *)
+  Theorem prepare_accepts : prepare_A ord g = Planned (plan_of ord g).
+  Proof.
+    destruct (plan_facts) as (_ & _ & _ & F4 & F5 & F6). unfold prepare_A.
+    assert (Htfs : existsb (tfs_needed g cl) (plan_of ord g) = false).
+    { destruct (existsb (tfs_needed g cl) (plan_of ord g)) eqn:E; [|reflexivity]. exfalso.
+      apply existsb_exists in E. destruct E as [s [Hs Ht]]. unfold tfs_needed in Ht.
+      destruct (uuids s) as [|a t] eqn:Eu; [discriminate|].
+      apply existsb_exists in Ht. destruct Ht as [p [Hp Hc]]. apply andb_true_iff in Hc. destruct Hc as [_ Hc].
+      apply negb_true_iff in Hc. apply Nat.eqb_neq in Hc. apply Hc.
+      assert (Ha : In a (ids g)).
+      { apply F4. unfold all_uuids. apply in_flat_map. exists s. split; [exact Hs | rewrite Eu; left; reflexivity]. }
+      apply cfw_same; [exact Ha|]. destruct Hok as (_ & Hcl & _).
+      apply (anc_ids g Hcl p a). apply (closure_correct g Hok). exact Hp. }
+    rewrite Htfs.
+    assert (Hv : validate_A (plan_of ord g) = true).
+    { unfold validate_A. apply forallb_forall. intros s Hs. apply subset_incl. intros a Ha. exact (F5 s a Hs Ha). }
+    rewrite Hv. reflexivity.
+  Qed.
+
+  (* ---------- the wait-for relation is acyclic when the groups form a DAG ---------- *)
+  Section Dag.
+    Variable grk : nat -> nat.
+    Hypothesis Hdag : forall p c, parent g p c -> grp_of g p <> grp_of g c -> grk (grp_of g p) < grk (grp_of g c).
+
+    Lemma anc_grk : forall a f, anc g a f ->
+      grk (grp_of g a) <= grk (grp_of g f) /\ (grp_of g a <> grp_of g f -> grk (grp_of g a) < grk (grp_of g f)).
+    Proof.
+      intros a f H. induction H as [p c Hpc|a m c Ham IH Hmc].
+      - destruct (Nat.eq_dec (grp_of g p) (grp_of g c)) as [E|E].
+        + rewrite E. split; [apply le_n | intros F; congruence].
+        + specialize (Hdag p c Hpc E). split; [lia | intros _; exact Hdag].
+      - destruct IH as [IH1 IH2]. destruct (Nat.eq_dec (grp_of g m) (grp_of g c)) as [E|E].
+        + rewrite <- E. split; assumption.
+        + specialize (Hdag m c Hmc E). split; [lia | intros _; lia].
+    Qed.
+
+    Definition frk (u : nat) : nat :=
+      grk (grp_of g u) * S (List.length g) + lidx (glevels ord g (grp_of g u)) u.
+
+    Lemma glevels_len : forall e, In e PQ -> List.length (glevels ord g (fst e)) <= List.length g.
+    Proof.
+      intros e He. destruct (glevels_spec e He) as (_ & S2 & S3 & _). destruct (pq_entry e He) as (_ & _ & Hsub & Hnd).
+      pose proof (concat_len_ge _ S3) as H1. pose proof (Permutation_length S2) as H2.
+      pose proof (NoDup_incl_length Hnd Hsub) as H3. unfold ids in H3. rewrite map_length in H3. lia.
+    Qed.
+
+    Lemma frk_lt : forall a f, anc g a f -> frk a < frk f.
+    Proof.
+      intros a f Hanc. destruct Hok as (_ & Hcl & _). destruct (anc_ids g Hcl a f Hanc) as [Ha Hf].
+      destruct (anc_grk a f Hanc) as [G1 G2]. unfold frk.
+      destruct (Nat.eq_dec (grp_of g a) (grp_of g f)) as [E|E].
+      - destruct (same_group_levels a f Ha Hf E Hanc) as (e & _ & Ek & _ & _ & Hlt).
+        rewrite E, <- Ek. lia.
+      - specialize (G2 E). destruct (pq_of_feature a Ha) as [e [He [Ek _]]].
+        pose proof (glevels_len e He) as Hl. rewrite Ek in Hl.
+        pose proof (lidx_le (glevels ord g (grp_of g a)) a) as Hi. nia.
+    Qed.
+
+    Lemma frk_level : forall e lvl x y, In e PQ -> In lvl (glevels ord g (fst e)) -> In x lvl -> In y lvl -> frk x = frk y.
+    Proof.
+      intros e lvl x y He Hl Hx Hy. destruct (pq_entry e He) as (E & _ & _ & Hnd). destruct (glevels_spec e He) as (_ & S2 & _).
+      assert (Hg : forall z, In z lvl -> grp_of g z = fst e).
+      { intros z Hz. pose proof (level_in_group e lvl z He Hl Hz) as H. rewrite E in H. apply members_spec in H. apply H. }
+      assert (Hndc : NoDup (concat (glevels ord g (fst e)))) by (apply (Permutation_NoDup (Permutation_sym S2)); exact Hnd).
+      destruct (In_nth_error _ _ Hl) as [k Hk]. unfold frk. rewrite (Hg x Hx), (Hg y Hy).
+      rewrite (lidx_nth _ k lvl x Hndc Hk Hx), (lidx_nth _ k lvl y Hndc Hk Hy). reflexivity.
+    Qed.
+
+    Definition srk (j : nat) : nat :=
+      match nth_error (raw_plan ord g) j with Some s0 => frk (hd 0 (uuids s0)) | None => 0 end.
+
+    Lemma hd_In : forall (l : list nat), l <> [] -> In (hd 0 l) l.
+    Proof. intros l H. destruct l as [|x t]; [congruence | left; reflexivity]. Qed.
+
+    Lemma srk_step : forall s u, In s (plan_of ord g) -> In u (uuids s) -> srk (sid s) = frk u.
+    Proof.
+      intros s u Hs Hu. destruct (in_plan s Hs) as (j & e & lvl & Hj & Es & He & Hl). subst s.
+      rewrite sid_set_sid. rewrite uuids_set_sid in Hu. unfold srk. rewrite Hj.
+      destruct (glevels_spec e He) as (_ & _ & S3 & _).
+      assert (Hne : uuids (mk_step ord g cl lvl) <> []) by (cbn; exact (perm_nonempty _ _ (Hord 2 lvl) (S3 lvl Hl))).
+      apply (frk_level e lvl _ _ He Hl); apply in_uuids_step; [apply hd_In; exact Hne | exact Hu].
+    Qed.
+
+    Theorem plan_wf_rank : exists order, wf_plan order (plan_of ord g) = true.
+    Proof.
+      destruct plan_facts as (F1 & F2 & F3 & F4 & F5 & F6).
+      exists (order_upto (plan_of ord g) srk (S (list_max (map (fun s => srk (sid s)) (plan_of ord g))))).
+      apply wf_plan_of_rank.
+      - intros s Hs. apply (F2 s Hs).
+      - exact F1.
+      - exact F3.
+      - exact F5.
+      - intros s Hs. assert (H : srk (sid s) <= list_max (map (fun s0 => srk (sid s0)) (plan_of ord g))); [|lia].
+        pose proof (proj1 (list_max_le (map (fun s0 => srk (sid s0)) (plan_of ord g)) _) (le_n _)) as Hall.
+        rewrite Forall_forall in Hall. apply Hall. apply in_map_iff. exists s. split; [reflexivity | exact Hs].
+      - intros s s' u Hs Hs' Hu Hu'. apply (F6 s u Hs) in Hu. destruct Hu as [f [Hf Hanc]].
+        rewrite (srk_step s' u Hs' Hu'), (srk_step s f Hs Hf). apply frk_lt. exact Hanc.
+    Qed.
+  End Dag.
 End Plan.
